@@ -371,6 +371,7 @@ def run(P, R, tier):
     K = KN.get(P)
     samemodel_rule(P, R)
     inertpair_rule(P, R)
+    mbresult_rule(P, R)
     stepmix_rule(P, R)
     usereset_rule(P, R)
     models_rule(P, R)
@@ -709,3 +710,53 @@ def inertpair_rule(P, R):
     else:
         R.violation(RULE, "model", "model() can return at line %d after set_inert_moles without unset_inert_moles: the solid of a precipitate_only phase that was parked in "
                     "inert_moles is not given back, the saved assemblage holds only what precipitated in the step" % bad, file=f["file"], line=bad, function=f["q"])
+
+
+def mbresult_rule(P, R):
+    """"never created or lost": set_and_run_wrapper(cell, use_mix, ..., step_fraction) adds the mix and the reaction of the step to the cell
+    and solves it; when the reaction takes more of an element than there is, step() returns MASS_BALANCE before anything consistent exists,
+    and the callers stop with "Negative concentration in solution n".  A call that may apply a mix or a reaction (its mix argument or its
+    step fraction is not a literal) must not drop the result: rk_kinetics did, called saver() on the half-assembled system and went on -
+    the exchanger's cations ended up in the saved state twice.  Calls with literal NOMIX / 0.0 only re-equilibrate a stored solution."""
+    RULE = "C02.mbresult"
+    R.rule(RULE, "the result of every set_and_run_wrapper call that can apply a mix or a reaction is examined (MASS_BALANCE stops the run)", minimum=3)
+
+    def stmts(node):
+        if not T.is_node(node):
+            return
+        if node[0] == "Compound":
+            for st in node[2]:
+                yield st
+        if node[0] == "If":
+            for br in (node[3], node[4]):
+                if T.is_node(br) and br[0] != "Compound":
+                    yield br
+        for c in node[2:]:
+            if isinstance(c, list):
+                if c and isinstance(c[0], str):
+                    yield from stmts(c)
+                else:
+                    for cc in c:
+                        if isinstance(cc, list) and cc and isinstance(cc[0], str):
+                            yield from stmts(cc)
+    n = 0
+    for f in sorted(P.functions.values(), key=lambda g: (g["file"], g["line"])):
+        if not f.get("body"):
+            continue
+        bare = {id(T.strip_casts(st)) for st in stmts(f["body"]) if T.is_node(T.strip_casts(st)) and T.strip_casts(st)[0] == "Call"}
+        for c in T.calls(f["body"]):
+            if T.callee_name(c) != "set_and_run_wrapper" or len(c[4]) < 5:
+                continue
+            lit = lambda a: T.is_node(T.strip_casts(a)) and T.strip_casts(a)[0] == "Lit"
+            if lit(c[4][1]) and lit(c[4][4]):
+                continue
+            n += 1
+            inst = "%s@%d" % (f["q"].split("::")[-1], c[1] - f["line"])
+            if id(c) in bare:
+                R.violation(RULE, inst, "%s calls set_and_run_wrapper(%s) - which can apply a mix / reaction - as a statement and drops the result: a MASS_BALANCE failure "
+                            "(reaction overdraws an element) goes unnoticed and the half-assembled state is saved" % (f["q"].split("::")[-1], T.text(c)[:60].split("(", 1)[-1]),
+                            file=f["file"], line=c[1], function=f["q"])
+            else:
+                R.ok(RULE, inst, "result examined")
+    if n < 3:
+        R.anchor_missing(RULE, "only %d set_and_run_wrapper calls that can apply a mix or a reaction" % n)
